@@ -1767,6 +1767,13 @@ def m_vec_pop(ex, st, fr, callee, args, argtys, dty):
     if last[0] == "item":
         ex.write_ref(st, args[0], Seq(v.parts[:-1]))
         return Agg("Option", "Some", [last[1]])
+    if last[0] == "opq" and len(v.parts) == 1:
+        t, n = last[1], last[2]
+        init = ex.uf("seq:init", Val, Val)(t)
+        lastv = Opq(ex.uf("seq:last", Val, Val)(t), _generic_arg(strip_ref(argtys[0]), 0))
+        # the receiver is updated on the Some branch only; encode both outcomes through the length
+        ex.write_ref(st, args[0], Seq([("opq", z3.If(n == 0, t, init), z3.If(n == 0, n, n - 1))]))
+        return Fork([(n == 0, Agg("Option", "None", [])), (n != 0, Agg("Option", "Some", [lastv]))])
     raise Unsupported("pop from a vector whose last part is symbolic")
 
 
